@@ -494,3 +494,43 @@ func C13LeaverAndNewcomer() {
 	}
 	sym.Reach("leaver-done")
 }
+
+// C13SameIdTwoSignals: one connection registers signal A and then signal B under the SAME user id
+// (a raw / libqi-style client chooses its ids). Whether or not the second registration is accepted,
+// the subscriber of A keeps receiving A's events until IT is unregistered: unregistering the
+// acknowledged (B, id) registration, or being refused it, must not take (A, id) away.
+func C13SameIdTwoSignals() {
+	h := newSignalHandler()
+	h.Activate(Activation{ServiceID: 9, ObjectID: 1})
+	st := newZZStream()
+	ch := NewChannel(net.NewEndPoint(st), DefaultCap())
+	user := sym.U64("user")
+	sigA, sigB := sym.U32("signal-a"), sym.U32("signal-b")
+	sym.Assume(sigA != sigB)
+	regA := zzFrame(net.Call, 9, 1, 0, 10, zzRegisterPayload(1, sigA, user))
+	sym.Assert(h.RegisterEvent(&regA, ch) == nil, "same-id/register-a")
+	out := st.sentMessages()
+	sym.Assert(len(out) == 1 && out[0].Header.Type == net.Reply, "same-id/register-a-acknowledged")
+	regB := zzFrame(net.Call, 9, 1, 0, 11, zzRegisterPayload(1, sigB, user))
+	h.RegisterEvent(&regB, ch)
+	out = st.sentMessages()
+	sym.Assert(len(out) == 2, "same-id/register-b-answered")
+	if len(out) != 2 {
+		return
+	}
+	accepted := out[1].Header.Type == net.Reply
+	if accepted {
+		unregB := zzFrame(net.Call, 9, 1, 1, 12, zzRegisterPayload(1, sigB, user))
+		h.UnregisterEvent(&unregB, ch)
+	}
+	mark := len(st.sentMessages())
+	data := sym.Bytes("emit-data", 1)
+	h.UpdateSignal(sigA, data)
+	evs := st.sentMessages()[mark:]
+	sym.Assert(len(evs) == 1, "same-id/subscriber-of-a-lost-its-events")
+	if len(evs) == 1 {
+		sym.Assert(evs[0].Header.Type == net.Event && evs[0].Header.Action == sigA && evs[0].Header.ID == 10, "same-id/event-header")
+		sym.Assert(sym.EqBytes(evs[0].Payload, data), "same-id/event-payload")
+	}
+	sym.Reach("same-id-done")
+}
